@@ -1,5 +1,5 @@
 from typing import List
-from sweetpea._internal.primitive import Factor, Level
+from sweetpea._internal.primitive import Factor, Level, DerivedFactor, HiddenName
 
 
 def _convert_from_name_to_factor(name: str, design: List[Factor]) -> Factor:
@@ -34,4 +34,14 @@ def convert_sample_from_names_to_objects(sample: dict, design: List[Factor]) -> 
         factor = _convert_from_name_to_factor(factor_name, design)
         value = [_convert_form_name_to_level(level_name, factor) for level_name in sample[factor_name]]
         new_dict[factor] = value
+    # Factors that were introduced internally for weighted levels are not part of a sample
+    # given by name; their levels follow from the factor that they are derived from
+    for factor in design:
+        if isinstance(factor.name, HiddenName) and factor not in new_dict and isinstance(factor, DerivedFactor):
+            sources = factor.first_level.window.factors
+            if all(source in new_dict for source in sources):
+                new_dict[factor] = [next((l for l in factor.levels
+                                          if l.window.predicate(*[new_dict[source][t].name for source in sources])),
+                                         Level(''))
+                                    for t in range(len(new_dict[sources[0]]))]
     return new_dict
